@@ -12,7 +12,13 @@ import (
 	"time"
 )
 
-const Root = "/verif"
+// Root is the directory of the verification framework (VERIF_ROOT, set by run.sh; default /verif).
+var Root = func() string {
+	if r := os.Getenv("VERIF_ROOT"); r != "" {
+		return r
+	}
+	return "/verif"
+}()
 
 type Finding struct {
 	ID      string   `json:"id"`
